@@ -14,3 +14,151 @@ package syntax
 //@   loop 1 invariant s > 0 ==> idRange[s][1] < num
 //@   loop 1 invariant forall j int :: e <= j && j < len(idRange) ==> num < idRange[j][0]
 //@   loop 1 decreases e - s
+
+// ---- Lexer (C05 safety/termination, C18 line table) ----
+
+// the cursor stays inside the text (len(Source) itself = end of input)
+//@ pred lexerWF(l *Lexer) = l != nil && 0 <= l.cursor && l.cursor <= len(l.Source)
+
+// the character the lexer sees at position i (0 = end of input)
+//@ fn charAt(l *Lexer, i int) rune = i >= len(l.Source) ? 0 : l.Source[i]
+
+// physical-line table: start offsets are strictly increasing, the first line starts at 0
+//@ pred linesWF(l *Lexer) =
+//@   (forall k int :: 0 <= k && k < len(l.Lines) ==> 0 <= l.Lines[k].StartIdx) &&
+//@   (forall j, k int :: 0 <= j && j < k && k < len(l.Lines) ==> l.Lines[j].StartIdx < l.Lines[k].StartIdx)
+
+//@ method (*Lexer).getChar
+//@   requires 0 <= idx
+//@   pure
+//@   ensures result == charAt(l, idx)
+
+//@ method (*Lexer).Next
+//@   requires lexerWF(l) && l.cursor < len(l.Source)
+//@   modifies l.cursor
+//@   ensures l.cursor == old(l.cursor) + 1 && result == charAt(l, l.cursor) && lexerWF(l)
+
+//@ method (*Lexer).Peek
+//@   requires lexerWF(l)
+//@   pure
+//@   ensures result == charAt(l, l.cursor + 1)
+//@ method (*Lexer).Peek2
+//@   requires lexerWF(l)
+//@   pure
+//@   ensures result == charAt(l, l.cursor + 2)
+//@ method (*Lexer).Peek3
+//@   requires lexerWF(l)
+//@   pure
+//@   ensures result == charAt(l, l.cursor + 3)
+//@ method (*Lexer).GetCurrentChar
+//@   requires lexerWF(l)
+//@   pure
+//@   ensures result == charAt(l, l.cursor)
+//@ method (*Lexer).GetCursor
+//@   pure
+//@   ensures result == l.cursor
+//@ method (*Lexer).GetSource
+//@   pure
+//@   ensures result == l.Source
+//@ method (*Lexer).SetCursor
+//@   modifies l.cursor
+//@   ensures l.cursor == cursor
+
+//@ func NewLexer
+//@   modifies nothing
+//@   ensures fresh(result) && lexerWF(result) && result.cursor == 0 && result.Source == source && len(result.Lines) == 0 && result.beginLex && result.IndentType == IndentUnknown
+
+//@ func containsRune
+//@   pure
+//@   ensures result == (exists i int :: 0 <= i && i < len(list) && list[i] == ch)
+//@   loop 1 invariant forall i int :: 0 <= i && i <= rangeindex && i < len(list) ==> list[i] != ch
+
+//@ func ContainsRune
+//@   pure
+//@   ensures result == (exists i int :: 0 <= i && i < len(list) && list[i] == ch)
+
+//@ func IsWhiteSpace
+//@   pure
+//@   ensures result == (exists i int :: 0 <= i && i < len(whiteSpaces) && whiteSpaces[i] == ch)
+//@   ensures result ==> ch != 0 && ch != 10 && ch != 13
+//@   loop 1 invariant forall i int :: 0 <= i && i <= rangeindex && i < len(whiteSpaces) ==> whiteSpaces[i] != ch
+
+// C18: the line containing a cursor position
+//@ method (*Lexer).FindLineIdx
+//@   requires l != nil && 0 <= startLoopIdx && startLoopIdx < 9223372036854775807
+//@   pure
+//@   ensures result >= startLoopIdx
+//@   ensures [not-past-the-table] startLoopIdx < len(l.Lines) ==> result < len(l.Lines)
+//@   ensures [next-line-starts-after] result + 1 < len(l.Lines) ==> cursor < l.Lines[result+1].StartIdx
+//@   ensures [skipped-lines-start-before] forall k int :: startLoopIdx < k && k <= result ==> l.Lines[k].StartIdx <= cursor
+//@   loop 1 invariant startLoopIdx <= i && i < 9223372036854775807 && (startLoopIdx < len(l.Lines) ==> i < len(l.Lines))
+//@   loop 1 invariant forall k int :: startLoopIdx < k && k <= i ==> l.Lines[k].StartIdx <= cursor
+//@   loop 1 decreases len(l.Lines) - i
+
+// the last recorded line starts (with its indentation) at or before the cursor
+//@ pred lastLineOK(l *Lexer) =
+//@   len(l.Lines) > 0 ==> 0 <= l.Lines[len(l.Lines)-1].Indents && 0 <= l.Lines[len(l.Lines)-1].StartIdx &&
+//@     (l.IndentType == IndentSpace ==> l.Lines[len(l.Lines)-1].StartIdx + 4 * l.Lines[len(l.Lines)-1].Indents <= l.cursor) &&
+//@     (l.IndentType != IndentSpace ==> l.Lines[len(l.Lines)-1].StartIdx + l.Lines[len(l.Lines)-1].Indents <= l.cursor)
+
+//@ pred isSyntaxErrorAt(e error, l *Lexer) =
+//@   is(e, *zerr.SyntaxError) && as(e, *zerr.SyntaxError) != nil &&
+//@   0 <= as(e, *zerr.SyntaxError).Cursor && as(e, *zerr.SyntaxError).Cursor <= len(l.Source)
+
+//@ method (*Lexer).parseSpaces
+//@   requires lexerWF(l) && ch == charAt(l, l.cursor)
+//@   modifies l.cursor
+//@   ensures lexerWF(l) && result == nil && l.cursor >= old(l.cursor) && !IsWhiteSpace(charAt(l, l.cursor))
+//@   loop 1 invariant lexerWF(l) && ch == charAt(l, l.cursor) && l.cursor >= old(l.cursor)
+//@   loop 1 decreases len(l.Source) - l.cursor
+
+//@ method (*Lexer).setIndentType
+//@   requires lexerWF(l) && 0 <= count && (ch == RuneSP || ch == RuneTAB || count == 0)
+//@   modifies l.IndentType
+//@   ensures r1 == nil && l.IndentType == IndentUnknown ==> r0 == 0
+//@   ensures r1 == nil ==> 0 <= r0 && (l.IndentType == IndentSpace ? 4 * r0 <= count : r0 <= count)
+//@   ensures r1 == nil ==> (old(l.IndentType) == IndentSpace ==> l.IndentType == IndentSpace) && (l.IndentType == IndentSpace && old(l.IndentType) != IndentSpace ==> old(l.IndentType) == IndentUnknown)
+//@   ensures r1 != nil ==> isSyntaxErrorAt(r1, l)
+
+//@ method (*Lexer).parseLine
+//@   requires lexerWF(l) && lastLineOK(l) && (c == RuneCR || c == RuneLF) && c == charAt(l, l.cursor)
+//@   modifies l.cursor, l.IndentType, l.Lines, mem(l.Lines)
+//@   ensures lexerWF(l) && l.cursor > old(l.cursor) && (l.Lines.base == old(l.Lines.base) || fresh(l.Lines))
+//@   ensures result == nil ==> lastLineOK(l) && len(l.Lines) > old(len(l.Lines)) && charAt(l, l.cursor) != RuneCR && charAt(l, l.cursor) != RuneLF
+//@   ensures result != nil ==> isSyntaxErrorAt(result, l)
+//@   loop 1 invariant lexerWF(l) && lastLineOK(l) && (ch == RuneCR || ch == RuneLF) && ch == charAt(l, l.cursor) && l.cursor >= old(l.cursor)
+//@   loop 1 invariant l.cursor > old(l.cursor) || len(l.Lines) == old(len(l.Lines))
+//@   loop 1 invariant len(l.Lines) >= old(len(l.Lines))
+//@   loop 1 invariant l.Lines.base == old(l.Lines.base) || fresh(l.Lines)
+//@   loop 2 invariant lexerWF(l) && count >= 1 && len(l.Lines) > old(len(l.Lines)) && (l.Lines.base == old(l.Lines.base) || fresh(l.Lines))
+//@   loop 2 invariant l.Lines[len(l.Lines)-1].Indents == 0 && 0 <= l.Lines[len(l.Lines)-1].StartIdx
+//@   loop 2 invariant l.cursor == l.Lines[len(l.Lines)-1].StartIdx + count - 1 && charAt(l, l.cursor) == chn && (chn == RuneSP || chn == RuneTAB)
+//@   loop 1 decreases len(l.Source) - l.cursor
+//@   loop 2 decreases len(l.Source) - l.cursor
+
+//@ method (*Lexer).ParseCRLF
+//@   requires lexerWF(l) && lastLineOK(l) && (c == RuneCR || c == RuneLF) && c == charAt(l, l.cursor)
+//@   modifies l.cursor, l.IndentType, l.Lines, mem(l.Lines)
+//@   ensures lexerWF(l) && l.cursor > old(l.cursor) && (l.Lines.base == old(l.Lines.base) || fresh(l.Lines))
+//@   ensures result == nil ==> lastLineOK(l) && len(l.Lines) > old(len(l.Lines))
+//@   ensures result != nil ==> isSyntaxErrorAt(result, l)
+
+//@ method (*Lexer).parseBeginLex
+//@   requires lexerWF(l) && l.cursor == 0 && len(l.Lines) == 0
+//@   modifies l.cursor, l.IndentType, l.Lines, mem(l.Lines)
+//@   ensures lexerWF(l) && (l.Lines.base == old(l.Lines.base) || fresh(l.Lines))
+//@   ensures result == nil ==> lastLineOK(l)
+//@   ensures result != nil ==> isSyntaxErrorAt(result, l)
+//@   loop 1 invariant lexerWF(l) && count >= 1 && len(l.Lines) == 1 && l.Lines[0].Indents == 0 && l.Lines[0].StartIdx == 0 && (l.Lines.base == old(l.Lines.base) || fresh(l.Lines))
+//@   loop 1 invariant l.cursor == count - 1 && charAt(l, l.cursor) == ch && (ch == RuneSP || ch == RuneTAB)
+//@   loop 1 decreases len(l.Source) - l.cursor
+
+// skips blanks and line breaks in front of the next token; afterwards the current character starts a token (or is end of input)
+//@ method (*Lexer).PreNextToken
+//@   requires lexerWF(l) && (l.beginLex ? l.cursor == 0 && len(l.Lines) == 0 : lastLineOK(l))
+//@   modifies l.cursor, l.IndentType, l.Lines, mem(l.Lines), l.beginLex
+//@   ensures lexerWF(l) && l.cursor >= old(l.cursor) && !l.beginLex && (l.Lines.base == old(l.Lines.base) || fresh(l.Lines))
+//@   ensures result == nil ==> lastLineOK(l) && !IsWhiteSpace(charAt(l, l.cursor)) && charAt(l, l.cursor) != RuneCR && charAt(l, l.cursor) != RuneLF
+//@   ensures result != nil ==> isSyntaxErrorAt(result, l)
+//@   loop 1 invariant lexerWF(l) && lastLineOK(l) && l.cursor >= old(l.cursor) && !l.beginLex && (l.Lines.base == old(l.Lines.base) || fresh(l.Lines))
+//@   loop 1 decreases len(l.Source) - l.cursor
